@@ -249,12 +249,13 @@ type scheduler struct {
 	r      *rand.Rand
 	window time.Duration
 	hold   float64
+	maxPer int // > 0: at most that many releases per window (a slow network: the sync spans several hand-over checks)
 	log    *evlog
 }
 
-func newScheduler(seed int64, windowMs int, hold float64, log *evlog) *scheduler {
+func newScheduler(seed int64, windowMs int, hold float64, maxPer int, log *evlog) *scheduler {
 	s := &scheduler{wake: make(chan struct{}, 1), stopCh: make(chan struct{}), done: make(chan struct{}),
-		r: rand.New(rand.NewSource(seed)), window: time.Duration(windowMs) * time.Millisecond, hold: hold, log: log}
+		r: rand.New(rand.NewSource(seed)), window: time.Duration(windowMs) * time.Millisecond, hold: hold, maxPer: maxPer, log: log}
 	go s.loop()
 	return s
 }
@@ -284,7 +285,12 @@ func (s *scheduler) loop() {
 		s.mu.Unlock()
 		s.r.Shuffle(len(batch), func(i, j int) { batch[i], batch[j] = batch[j], batch[i] })
 		var held []*schedItem
+		released := 0
 		for _, it := range batch {
+			if s.maxPer > 0 && released >= s.maxPer {
+				held = append(held, it)
+				continue
+			}
 			if it.holds < 2 && s.r.Float64() < s.hold {
 				it.holds++
 				held = append(held, it)
@@ -297,6 +303,7 @@ func (s *scheduler) loop() {
 			}
 			s.log.add("release", it.desc, 0, "")
 			it.send()
+			released++
 		}
 		if len(held) > 0 {
 			s.mu.Lock()
